@@ -245,7 +245,24 @@ def generate(cls, rng):
     sc["threads"] = [[rng.choice(pool) for _ in range(rng.randrange(1, 7))]
                      for _ in range(rng.choice([1, 2, 2, 3]))]
     kind = rng.choice(["random", "random", "pb", "pct"])
-    if kind == "random":
+    if rng.random() < 0.4:
+        # cold start: every thread's first query races on components whose
+        # recurrence caches are still empty and complete within one fill
+        spec, form = gen_zone_spec(rng, rng.choice(["rdate", "rrule_count"]))
+        sc["spec"], sc["form"] = spec, form
+        sc["nyears"] = rng.choice([3, 4, 6])
+        sc["multi"] = False
+        sc["threads"] = [[gen_query(rng, sc["nyears"], small=True)
+                          for _ in range(rng.choice([1, 1, 2]))]
+                         for _ in range(rng.choice([2, 3, 3]))]
+        kind = "random_fine"
+    if kind == "random_fine" and rng.random() < 0.6:
+        strat = dict(kind="crit", k=rng.choice([1, 2, 3]),
+                     q=rng.choice([0.05, 0.15, 0.4]),
+                     p=rng.choice([0.0, 0.02]))
+    elif kind == "random_fine":
+        strat = dict(kind="random", p=rng.choice([0.05, 0.2, 0.5, 1.0]))
+    elif kind == "random":
         strat = dict(kind="random", p=rng.choice([0.005, 0.02, 0.1, 1.0]))
     elif kind == "pb":
         strat = dict(kind="pb", k=rng.choice([0, 1, 2, 3]),
